@@ -48,11 +48,12 @@ const NO_EMITS = {
   contextNoArg: '(props: {}, ctx: SetupContext) => () => null',
 };
 
-function encode(c) {
+function encode(c, other) {
   let n = 0;
-  const ns = c.names.map((i) => NAMES[i]);
+  const ns = other || c.names.map((i) => NAMES[i]);
   return ENC[c.enc](ns, { fresh: (p) => `${p}${n++}` });
 }
+const OUTER_NAMES = ['yy', 'zz'];
 
 function render(c) {
   if (c.sp === 'N') return `${R.PRELUDE}type Other<T> = T;\nexport const C = defineComponent(${NO_EMITS[c.form]});\n`;
@@ -70,6 +71,17 @@ function render(c) {
     }[c.scope];
     return `${R.PRELUDE}${wrap}\n`;
   }
+  if (c.scope === 'twice') {
+    // two components of one module use the same declarations
+    return `${R.PRELUDE}${e.decls.join('\n')}\nexport const C0 = ${call};\nexport const C = ${call};\n`;
+  }
+  if (c.scope === 'shadowed' || c.scope === 'shadowedAfter') {
+    // same-named declarations at module level describe other events and are used by a component of their own
+    const o = encode(c, OUTER_NAMES);
+    const outer = `${o.decls.map(strip).join('\n')}\nexport const C0 = defineComponent(${SETUPS[c.setup](o.type)});`;
+    const inner = `function make() {\n  ${e.decls.map(strip).join('\n  ')}\n  return ${call};\n}\nexport const C = make();`;
+    return `${R.PRELUDE}${c.scope === 'shadowed' ? outer + '\n' + inner : inner + '\n' + outer}\n`;
+  }
   if (c.scope === 'mixed') {
     // parent declarations at module level, the rest next to the call inside a function
     const k = e.parent || 0;
@@ -86,10 +98,19 @@ function judge(c, resps) {
   if (r.panic || r.died || r.hang || !r.eval_js) return { skip: true };
   const res = R.run(r.eval_js);
   if (res.load) return { viol: [{ clause: 'load', diff: 'exception', msg: res.load }], obs: 'load' };
-  const call = res.calls.find((x) => x.who === 'vue');
+  const vueCalls = res.calls.filter((x) => x.who === 'vue');
+  // with two components in the module the judged one is C; the companion C0 is judged below
+  const two = ['twice', 'shadowed', 'shadowedAfter'].includes(c.scope);
+  const call = two ? vueCalls[c.scope === 'shadowedAfter' ? 0 : 1] : vueCalls[0];
   const opts = call && call.args[1];
   const viol = [];
   const errors = (r.diags || []).filter((d) => d.level === 'error');
+  if (two && c.sp === 'E') {
+    const other = vueCalls[c.scope === 'shadowedAfter' ? 1 : 0];
+    const oe = (c.scope === 'twice' ? [...new Set(c.names.map((i) => NAMES[i]))] : OUTER_NAMES.slice()).sort();
+    const og = other && other.args[1] && Array.isArray(other.args[1].emits) ? [...new Set(other.args[1].emits)].sort() : null;
+    if (stable(oe) !== stable(og)) viol.push({ clause: 'emits', diff: 'companion:' + (og === null ? 'absent' : 'different'), msg: `the other component of the module got emits ${JSON.stringify(og)}, declared ${JSON.stringify(oe)}`, expected: oe, observed: og });
+  }
   if (c.sp === 'N') {
     if (opts && Object.prototype.hasOwnProperty.call(opts, 'emits')) viol.push({ clause: 'no-annotation-no-emits', diff: 'emits:present', msg: 'an emits option was added although the setup function has no SetupContext<E> annotation', observed: opts.emits });
     return { viol, obs: 'N:' + c.form + ':' + stable(opts && opts.emits), clauses: ['no-annotation-no-emits'] };
@@ -114,7 +135,7 @@ function spaces(tier) {
       name: 'E:event-sets×encodings',
       bounds: { names: NAMES, max_names: 3, encodings: ENC_KEYS, setup_forms: Object.keys(SETUPS), positions: ['before', 'after'], scopes: ['module', 'function declaration', 'arrow', 'function expression', 'object method', 'IIFE', 'mixed (parents at module level)'] },
       *gen() {
-        for (const names of nameSets()) for (const enc of ENC_KEYS) for (const setup of Object.keys(SETUPS)) for (const scope of ['module', 'local', 'localArrow', 'localFnExpr', 'localMethod', 'localIife', 'mixed']) for (const pos of (scope === 'mixed' ? ['before'] : ['before', 'after'])) {
+        for (const names of nameSets()) for (const enc of ENC_KEYS) for (const setup of Object.keys(SETUPS)) for (const scope of ['module', 'local', 'localArrow', 'localFnExpr', 'localMethod', 'localIife', 'mixed', 'twice', 'shadowed', 'shadowedAfter']) for (const pos of (['mixed', 'twice', 'shadowed', 'shadowedAfter'].includes(scope) ? ['before'] : ['before', 'after'])) {
           if (tier !== 'thorough' && setup !== 'arrow' && !(scope === 'module' && pos === 'before')) continue;
           yield { sp: 'E', names, enc, setup, scope, pos };
         }
